@@ -4,7 +4,7 @@ result (GRAD-CUT); every trainable parameter reaches a result (GRAD-REACH)."""
 import ast
 
 from ..entries import enumerate_entries, entry_args
-from ..interp import Interp, OBJ, E, AV, T, all_ann
+from ..interp import Interp, OBJ, E, AV, T, TUP, all_ann
 from ..model import AnalysisIncomplete, PARAM, norm_text
 from ..report import Finding, RuleResult
 from ..taint import TaintDomain
@@ -190,9 +190,13 @@ def grad_reach_rule(ctx):
     return res
 
 
+def _late_inplace(ctx):
+    return grad_inplace_rule(ctx)
+
+
 register(
     "C16",
-    [grad_cut_rule, grad_reach_rule],
+    [grad_cut_rule, grad_reach_rule, _late_inplace],
     "Forward may-dependence (taint) analysis over every differentiable entry point (forward/inverse of every Transform per "
     "concrete receiver class, the Linear accessors, log_prob/_log_prob/mean of every Distribution, Flow.sample_and_log_prob/"
     "_sample/transform_to_noise, forward/log_prob of the remaining nn.Modules, the eight spline functions). Gradient-severing "
@@ -204,3 +208,173 @@ register(
     "out of reach.",
     [A_NET, A_UMNN, T_OPS, "autograd computes correct derivatives for the torch operations themselves"],
 )
+
+
+# ---------------------------------------------------------------------------------------
+# GRAD-INPLACE: no in-place write to a value an earlier differentiable op saved for backward
+# ---------------------------------------------------------------------------------------
+
+# T-OPS "saved operand" column (hand-written from torch's derivatives.yaml):
+SAVES_INPUTS = {"mul", "div", "true_divide", "matmul", "mm", "bmm", "mv", "linear", "ger", "outer", "pow", "log", "log1p", "atan2", "cos", "sin", "tan", "atan", "abs", "clamp", "softplus", "leaky_relu", "elu", "logsumexp", "var", "std", "norm", "prod", "erf", "lerp", "where", "solve_triangular", "lu_solve", "addmv", "addmm", "square"}
+SAVES_RESULT = {"exp", "sigmoid", "tanh", "softmax", "log_softmax", "sqrt", "reciprocal", "relu", "logsumexp", "inverse", "prod", "std", "norm", "expm1", "exp2"}
+BINOP_SAVES = {"Mult", "Div", "Pow", "MatMult"}
+
+
+class InplaceDomain(TaintDomain):
+    """Annotation = allocation sites whose storage a tensor may share ('V', file, line, col) plus
+    'G' (may require grad).  `saved` collects the sites of values some differentiable
+    operation keeps for its backward pass."""
+
+    value_semantics = False  # the annotation describes storage, like the ownership domain
+    like_keeps_labels = False
+
+    def __init__(self):
+        self.saved = {}
+        self.findings = []
+        self.counter = 0
+
+    def _site(self, interp, node):
+        # one identity per *evaluation* of an allocating operation (the interpreter runs without
+        # memoisation and unrolls loops twice in this mode), so a rebinding `x = x - t` is a new value
+        self.counter += 1
+        return ("V", self.counter)
+
+    def arg(self, func, pname, idx, default):
+        return T(frozenset({("V", "arg", pname, 0), "G"}))
+
+    def state(self, interp, objav, path, attrinfo, node):
+        return T(frozenset({("V", "state", ".".join(path), 0), "G"}))
+
+    def net_result(self, interp, netav, method, args, kwargs, node):
+        return T(frozenset({self._site(interp, node), "G"}))
+
+    def ext_module_result(self, interp, dotted, path, args, kwargs, node):
+        return T(frozenset({self._site(interp, node), "G"}))
+
+    def ctor(self, interp, op, args, kwargs, node):
+        return T(frozenset({self._site(interp, node)}))
+
+    def umnn_call(self, interp, dotted, args, kwargs, node):
+        return T(frozenset({self._site(interp, node), "G"}))
+
+    def shape_ann(self, ann):
+        return E
+
+    def _save(self, interp, av, node, op):
+        if av is None or av.kind not in ("tensor", "top") or interp.frame.in_nograd():
+            return
+        if "G" not in av.ann:
+            return
+        for l in av.ann:
+            if isinstance(l, tuple) and l[0] == "V":
+                self.saved.setdefault(l, (interp.frame.func, node, op))
+
+    def op(self, interp, op, info, recv, args, kwargs, node):
+        cat = info.get("cat")
+        tens = [a for a in [recv] + list(args) + list(kwargs.values()) if isinstance(a, AV) and a.kind in ("tensor", "top")]
+        grad = any("G" in a.ann for a in tens)
+        if cat in ("inplace", "init"):
+            return recv
+        if cat == "scalar":
+            return None
+        if cat in ("alias",):
+            return AV("tensor", None, all_ann(self, recv))
+        if cat == "aliases":
+            from ..interp import LST
+
+            return LST(None, AV("tensor", None, all_ann(self, recv)))
+        if op in SAVES_INPUTS:
+            for a in tens:
+                self._save(interp, a, node, op)
+        site = self._site(interp, node)
+        ann = {site}
+        if grad and not info.get("idx") and cat not in ("ctor", "like"):
+            ann.add("G")
+        res = AV("tensor", None, frozenset(ann))
+        if op in SAVES_RESULT and grad:
+            self._save(interp, res, node, op)
+        if cat == "tuple":
+            return TUP([AV("tensor", None, frozenset(ann)) for _ in range(info.get("n", 2))])
+        return res
+
+    def binop(self, interp, opnode, left, right, node):
+        tens = [a for a in (left, right) if a.kind in ("tensor", "top")]
+        grad = any("G" in a.ann for a in tens)
+        if isinstance(node, ast.AugAssign):
+            # x op= y: autograd keeps what it needs of the old x itself; only y is saved
+            if type(opnode).__name__ in BINOP_SAVES and right.kind in ("tensor", "top"):
+                self._save(interp, right, node, type(opnode).__name__)
+            return AV("tensor", None, left.ann if left.kind in ("tensor", "top") else frozenset({self._site(interp, node)}))
+        if type(opnode).__name__ in BINOP_SAVES and len(tens) == 2:
+            for a in tens:
+                self._save(interp, a, node, type(opnode).__name__)
+        elif type(opnode).__name__ in ("Pow",) and tens:
+            self._save(interp, tens[0], node, "pow")
+        elif type(opnode).__name__ == "Div" and right.kind in ("tensor", "top"):
+            self._save(interp, right, node, "div")
+            if left.kind in ("tensor", "top"):
+                self._save(interp, left, node, "div")
+        ann = {self._site(interp, node)}
+        if grad:
+            ann.add("G")
+        return AV("tensor", None, frozenset(ann))
+
+    def compare(self, interp, left, right, node):
+        return AV("tensor", None, frozenset({self._site(interp, node)}))
+
+    def subscript(self, interp, base, index, node):
+        from ..own import _is_basic_index
+
+        if _is_basic_index(index):
+            return AV(base.kind, None, base.ann)
+        ann = {self._site(interp, node)}
+        if "G" in base.ann:
+            ann.add("G")
+        return AV("tensor", None, frozenset(ann))
+
+    def on_write(self, interp, how, target, value, node):
+        if target.kind not in ("tensor", "top") or interp.frame.in_nograd():
+            return
+        if how == "data":
+            return
+        for l in target.ann:
+            if isinstance(l, tuple) and l[0] == "V" and l in self.saved:
+                sf, snode, sop = self.saved[l]
+                fi = interp.frame.func
+                self.findings.append(
+                    Finding(
+                        "GRAD-INPLACE",
+                        fi.module,
+                        fi.qualname,
+                        node,
+                        "in-place write (%s) to a tensor that `%s` at %s:%d saved for its backward pass: back-propagation raises 'modified by an inplace operation' (or silently uses the overwritten value)" % (how, sop, sf.module.relpath, getattr(snode, "lineno", 0)),
+                        witness=[f.func.qualname for f in interp.frame.stack()],
+                    )
+                )
+
+
+def grad_inplace_rule(ctx):
+    p = ctx.p
+    res = RuleResult("GRAD-INPLACE", "no in-place write reaches a tensor that an earlier differentiable operation saved for backward")
+    n = 0
+    nsaved = 0
+    allf = []
+    funcs = set()
+    for e in enumerate_entries(p):
+        if not is_sink(p, e):
+            continue
+        dom = InplaceDomain()  # a fresh registry per entry point: saves of one call history only
+        it = Interp(p, dom, memo=False, unroll=2)
+        self_av = OBJ(e.cls) if e.cls is not None and not e.func.is_static else None
+        it.run_function(e.func, self_av, entry_args(dom, e))
+        n += 1
+        nsaved += len(dom.saved)
+        allf.extend(dom.findings)
+        funcs |= it.stats["functions"]
+    from ..report import dedupe
+
+    for f in dedupe(allf):
+        res.fail(f)
+    res.ok("%d entry points, %d saved-for-backward values, no in-place write reaches one" % (n, nsaved))
+    res.ok("%d functions interpreted" % len(funcs), nontrivial=False)
+    return res
